@@ -228,6 +228,123 @@ example : pushSubTree Sym.node (pushAll Sym.leaf Sym.node ⟨[], 0, 0, none, [],
       (MTH Sym.leaf Sym.node [[3], [4]]) = .ok (pushAll Sym.leaf Sym.node ⟨[], 0, 0, none, [], true⟩ [[1], [2], [3], [4]]) :=
   C16_pushSubTree_refines Sym.leaf Sym.node [[1], [2]] [[3], [4]] 1 0 true rfl (by decide) (by decide)
 
+
+/-! ### histories with observation calls
+
+`HOp` / `hstep` / `hrun` (Model/Merkle.lean) is the call-level state machine: `Push`, `PushSubTree`, and the observation
+calls `Root()` / `Prove()` at any point.  Op family `C16 accd … Or / Op …` runs the same histories on the Go `Tree`. -/
+
+/-- the leaves a history has committed -/
+def hleaves : List (HOp A) → List A
+  | [] => []
+  | .push x :: ops => x :: hleaves ops
+  | .sub _ X :: ops => X ++ hleaves ops
+  | _ :: ops => hleaves ops
+
+/-- every cached sub-tree of the history is a full block of `2^h` leaves pushed at a multiple of `2^h` and does not
+    contain the proof index (`c` = number of leaves before the history) -/
+def hwf (p : Nat) : Nat → List (HOp A) → Prop
+  | _, [] => True
+  | c, .push _ :: ops => hwf p (c + 1) ops
+  | c, .sub h X :: ops => X.length = 2^h ∧ 2^h ∣ c ∧ ¬ (c ≤ p ∧ p < c + 2^h) ∧ hwf p (c + 2^h) ops
+  | c, _ :: ops => hwf p c ops
+
+/-- what `Root()` must return when the leaves `L` have been committed -/
+def specRoot (L : List A) : Option D := if L.isEmpty then none else some (MTH hl hn L)
+
+/-- what `Prove()` must return after `SetIndex(p)` when the leaves `L` have been committed -/
+def specProve (p : Nat) (L : List A) : Option D × Option A × List D × Nat × Nat :=
+  if L.isEmpty then (none, none, [], p, 0)
+  else if h : p < L.length then (some (MTH hl hn L), some L[p], PATH hl hn L p, p, L.length)
+  else (some (MTH hl hn L), none, [], p, L.length)
+
+/-- the observations demanded by the property: each one a function of the leaves committed BEFORE it, only -/
+def hspec (p : Nat) : List A → List (HOp A) → List (Obs A D)
+  | _, [] => []
+  | L, .push x :: ops => hspec p (L ++ [x]) ops
+  | L, .sub _ X :: ops => hspec p (L ++ X) ops
+  | L, .root :: ops => .root (specRoot hl hn L) :: hspec p L ops
+  | L, .prove :: ops => .prove (specProve hl hn p L) :: hspec p L ops
+
+theorem root_eq_specRoot (L : List A) (p : Nat) (pt : Bool) :
+    root hn (pushAll hl hn (⟨[], 0, p, none, [], pt⟩ : Tree A D) L) = specRoot hl hn L := by
+  unfold specRoot
+  cases L with
+  | nil => rfl
+  | cons x xs => simpa using C16_root_eq_MTH hl hn (x :: xs) (by simp) p pt
+
+theorem prove_eq_specProve (L : List A) (p : Nat) (pt : Bool) :
+    prove hn (pushAll hl hn (⟨[], 0, p, none, [], pt⟩ : Tree A D) L) = specProve hl hn p L := by
+  unfold specProve
+  cases L with
+  | nil => rfl
+  | cons x xs =>
+    simp only [List.isEmpty_cons, Bool.false_eq_true, if_false]
+    by_cases h : p < (x :: xs).length
+    · rw [dif_pos h]; exact C16_prove_eq_PATH hl hn (x :: xs) p h pt
+    · rw [dif_neg h]; exact C16_prove_unreached hl hn (x :: xs) (by simp) p (by omega) pt
+
+/-- (6) histories: after `SetIndex(p)` (or none), whatever `Push` / `PushSubTree` calls (full aligned blocks not
+    containing `p`) and `Root()` / `Prove()` observations are interleaved, in any order and any number,
+    * the state is the state of pushing the committed leaves one by one — the observations have left no trace;
+    * every `Root()` returned the RFC 6962 tree hash of the leaves committed before it (nil for none), every `Prove()`
+      returned (that root, the leaf at `p`, its RFC 6962 audit path, `p`, the leaf count) of the leaves committed
+      before it — whatever was observed earlier. -/
+theorem C16_history (p : Nat) (pt : Bool) : ∀ (ops : List (HOp A)) (L : List A), hwf p L.length ops →
+    hrun hl hn (pushAll hl hn (⟨[], 0, p, none, [], pt⟩ : Tree A D) L) ops =
+      (pushAll hl hn ⟨[], 0, p, none, [], pt⟩ (L ++ hleaves ops), hspec hl hn p L ops)
+  | [], L, _ => by simp [hrun, hleaves, hspec]
+  | .push x :: ops, L, hw => by
+    have ih := C16_history p pt ops (L ++ [x]) (by simpa [hwf] using hw)
+    have hs : push hl hn (pushAll hl hn (⟨[], 0, p, none, [], pt⟩ : Tree A D) L) x =
+        pushAll hl hn ⟨[], 0, p, none, [], pt⟩ (L ++ [x]) := by
+      rw [pushAll_append]; rfl
+    simp only [hrun, hstep, hs, ih, hleaves, hspec, Option.toList, List.nil_append, List.append_assoc,
+      List.singleton_append]
+  | .sub h X :: ops, L, hw => by
+    obtain ⟨hX, hd, hp, hw'⟩ := hw
+    have ih := C16_history p pt ops (L ++ X) (by rw [List.length_append, hX]; exact hw')
+    simp only [hrun, hstep, C16_pushSubTree_refines hl hn L X h p pt hX hd hp, ih, hleaves, hspec, Option.toList,
+      List.nil_append, List.append_assoc]
+  | .root :: ops, L, hw => by
+    have ih := C16_history p pt ops L hw
+    simp only [hrun, hstep, ih, hleaves, hspec, Option.toList, root_eq_specRoot, List.singleton_append]
+  | .prove :: ops, L, hw => by
+    have ih := C16_history p pt ops L hw
+    simp only [hrun, hstep, ih, hleaves, hspec, Option.toList, prove_eq_specProve, List.singleton_append]
+
+/-- (6) the observation calls are pure: they return the state they were given, … -/
+theorem C16_observers_keep_state (t : Tree A D) :
+    (hstep hl hn t .root).1 = t ∧ (hstep hl hn t .prove).1 = t := ⟨rfl, rfl⟩
+
+/-- … so deleting every observation from ANY history (any start state, well-formed or not) changes neither the final
+    state nor, hence, anything a later call returns -/
+theorem C16_observers_erasable (t : Tree A D) (ops : List (HOp A)) :
+    (hrun hl hn t ops).1 =
+      (hrun hl hn t (ops.filter (fun o => match o with | .root => false | .prove => false | _ => true))).1 := by
+  induction ops generalizing t with
+  | nil => rfl
+  | cons o ops ih =>
+    cases o with
+    | push x => simp only [List.filter_cons, hrun]; exact ih _
+    | sub h X => simp only [List.filter_cons, hrun]; exact ih _
+    | root => simp only [List.filter_cons, hrun, hstep]; exact ih _
+    | prove => simp only [List.filter_cons, hrun, hstep]; exact ih _
+
+/-- (6) in particular: the root read at the end of a history is the tree hash of all committed leaves, however many
+    times `Root()` / `Prove()` were called on the way -/
+theorem C16_history_final_root (p : Nat) (pt : Bool) (ops : List (HOp A)) (hw : hwf p 0 ops) :
+    root hn (hrun hl hn (⟨[], 0, p, none, [], pt⟩ : Tree A D) ops).1 = specRoot hl hn (hleaves ops) := by
+  have := C16_history hl hn p pt ops [] hw
+  simp only [pushAll, List.foldl_nil, List.nil_append] at this
+  rw [this]
+  exact root_eq_specRoot hl hn _ p pt
+
+example : (hrun Sym.leaf Sym.node (⟨[], 0, 1, none, [], true⟩ : Tree Bytes Sym)
+    [.root, .push [1], .prove, .push [2], .root, .sub 1 [[3], [4]], .prove, .root]).2 =
+    hspec Sym.leaf Sym.node 1 [] [.root, .push [1], .prove, .push [2], .root, .sub 1 [[3], [4]], .prove, .root] := by
+  decide
+
 end Accumulator
 
 /-- (5) `ReadAll` is `Push` of the consecutive segments, and the segments concatenate to the stream -/
@@ -307,6 +424,18 @@ theorem C16_vortex_rejects_out_of_range (n : Nat) (pf : List D) (i : Nat) (leaf 
   rcases h with h | h
   · simp [Nat.not_lt.mpr h]
   · simp [h]
+
+/-- the index lattice of op family `C16 vxi`: for a tree of `n ≥ 1` leaves (depth `d = log2Ceil n`) the checked verifier
+    rejects, whatever leaf / proof / root it is given, the first index after the padded leaf level `2^d`, everything
+    above it, and every `p + k·2^d` with `k ≥ 1` (the indices that share their `d` low bits with position `p`) -/
+theorem C16_vortex_rejects_index_lattice (n : Nat) (hn0 : 0 < n) (pf : List D) (leaf rt : D) :
+    (∀ i, 2^(log2Ceil n) ≤ i → vverify hn n pf i leaf rt = false) ∧
+    (∀ p k, 0 < k → vverify hn n pf (p + k * 2^(log2Ceil n)) leaf rt = false) := by
+  have hle := le_pow_log2Ceil n hn0
+  refine ⟨fun i hi => C16_vortex_rejects_out_of_range hn n pf i leaf rt (Or.inl (by omega)), fun p k hk => ?_⟩
+  refine C16_vortex_rejects_out_of_range hn n pf _ leaf rt (Or.inl ?_)
+  have : 2^(log2Ceil n) ≤ k * 2^(log2Ceil n) := Nat.le_mul_of_pos_left _ hk
+  omega
 
 /-- `Open` refuses exactly the indices `≥ 2^depth` -/
 theorem C16_vortex_open_range (leaves : List D) (i : Nat) :
